@@ -29,14 +29,14 @@ def parse_run(out_dir):
     run = os.path.join(out_dir, "demo", "RUN.md")
     demo = [f for f in os.listdir(os.path.join(out_dir, "demo")) if f.endswith(".rs")]
     text = open(run).read() if os.path.exists(run) else open(os.path.join(out_dir, "notes.md")).read()
-    m = re.search(r"((?:passkey[\w-]*|public-suffix)/(?:tests|examples)/)(demo_\w+\.rs)", text)
+    m = re.search(r"((?:passkey[\w-]*|public-suffix)/(?:tests|examples)/)(\w*demo\w*\.rs)", text)
     dest = (m.group(1), m.group(2)) if m else None
     cmds = [l.strip().strip("`") for l in text.splitlines() if "cargo test" in l or "cargo run" in l]
     cmd = None
     for c in cmds:
         c = c[c.index("CARGO_NET_OFFLINE"):] if "CARGO_NET_OFFLINE" in c else c[c.index("cargo"):]
         c = c.split("`")[0].strip()
-        if "--test demo" in c or "--example" in c:
+        if re.search(r"--test \w*demo", c) or "--example" in c:
             cmd = c
             break
     return demo, dest, cmd
